@@ -4,7 +4,8 @@ Explicit-state search over the process-global state of the droop package, drivin
   state      every plain-data attribute of every droop module and of every class defined in them (found by a generic scan:
              the class-level configuration of Fixed / Guarded / Rational incl. name-mangled scale factors, epsilon, maxDiff /
              minDiff, and anything a change might add), plus the parsed ElectionProfile objects, which are shared by all
-             elections of the same ballot file ("counting the same profile again in a fresh election object")
+             elections of the same ballot file ("counting the same profile again in a fresh election object"), plus the caller's own
+             option dicts (one object per distinct configuration, handed to every election run with that configuration)
   letters    (profile, rule, options): construct an Election on the shared profile object, count, report + dump + json
   search     BFS from the freshly imported package; a state is snapshotted / restored by setattr + deepcopy, so every
              (state, letter) pair is executed exactly once; new states are appended until CLOSURE, so the verdict holds for
@@ -35,6 +36,9 @@ PROFILES = {
     'P2': blt.render(3, 1, [(2, (1, 2)), (2, (2, 1)), (1, (3, 1))], tie=(3, 2, 1)),
     # under-supported second seat, near-equal comparisons (leaves a non-zero Guarded.maxDiff behind), one ranking on two separate lines
     'P4': blt.render(3, 2, [(2, (1,)), (1, (1, 2)), (1, (1,)), (1, (1, 3))]),
+    # options embedded in the ballot file (the profile object carries them; integer arithmetic requested by the file)
+    'P5': blt.render(3, 1, [(2, (1, 2)), (2, (2, 3)), (1, (3, 1)), (1, (2, 1))], droop_opts=['arithmetic=fixed', 'precision=3']),
+    'P6': blt.render(3, 1, [(2, (1, 2)), (2, (2, 3)), (1, (3, 1))], droop_opts=['integer']),
     'P3': blt.render(4, 2, [(2, ((1, 2), 3)), (2, (3, (1, 4))), (1, (4,)), (2, (2, 1)), (1, ((3, 4), 2))]),   # equal ranks (meek/warren read them)
 }
 
@@ -62,6 +66,11 @@ def letters(tier):
         out.append((p, {'rule': 'wigm', 'arithmetic': 'integer'}))
         if p != 'P3':
             out.append((p, {'rule': 'wigm', 'arithmetic': 'rational'}))
+    for p in ('P5', 'P6'):
+        for r in ('wigm', 'meek', 'scotland', 'qpq'):
+            if p == 'P6' and r == 'meek':
+                continue        # meek does not accept integer arithmetic
+            out.append((p, {'rule': r}))
     return out
 
 
@@ -125,10 +134,11 @@ class World:
 
     def __init__(self):
         self.profiles = {k: ElectionProfile(data=t) for k, t in PROFILES.items()}
+        self.dicts = {}      # the caller's own option dicts, one object per distinct configuration, reused across elections
 
     def snapshot(self):
         g = {key: copy.deepcopy(v) for key, _, _, v in locations()}
-        return {'g': g, 'p': copy.deepcopy(self.profiles)}
+        return {'g': g, 'p': copy.deepcopy(self.profiles), 'd': copy.deepcopy(self.dicts)}
 
     def restore(self, snap):
         want = snap['g']
@@ -143,16 +153,21 @@ class World:
             holder = holders[mname] if cname is None else getattr(holders[mname], cname)
             setattr(holder, attr, copy.deepcopy(v))
         self.profiles = copy.deepcopy(snap['p'])
+        self.dicts = copy.deepcopy(snap.get('d', {}))
 
     @staticmethod
     def key(snap):
         c = (tuple(sorted((repr(k), repr(canon(v))) for k, v in snap['g'].items())),
-             tuple(sorted((k, repr(profile_sig(p))) for k, p in snap['p'].items())))
+             tuple(sorted((k, repr(profile_sig(p))) for k, p in snap['p'].items())),
+             tuple(sorted((k, repr(sorted(d.items(), key=repr))) for k, d in snap.get('d', {}).items())))
         return hashlib.blake2b(repr(c).encode(), digest_size=12).hexdigest()
 
     def run(self, letter):
         pname, cfg = letter
-        E = Election(self.profiles[pname], dict(cfg))
+        key = repr(sorted(cfg.items()))
+        if key not in self.dicts:
+            self.dicts[key] = dict(cfg)
+        E = Election(self.profiles[pname], self.dicts[key])      # the caller hands over its own dict, as a driver looping over files does
         E.count()
         return E.json() + '\x00' + E.report() + '\x00' + E.dump()
 
@@ -169,6 +184,8 @@ def _init(tier):
     global _W, _L
     _W = World()
     _L = letters(tier)
+    for _, cfg in _L:       # all caller dicts exist from the start (a lazily growing set would multiply the states by its subsets)
+        _W.dicts.setdefault(repr(sorted(cfg.items())), dict(cfg))
 
 
 def _task(args):
